@@ -142,6 +142,8 @@ def judge(case, impl, asis, spec):
         return Verdict(impl == asis, why)
     # compile cases: python-side expectation only (model echoes)
     want = case.note.get("want")
+    if f[2] == "c" and want.startswith("0."):
+        want = want[1:]
     ok = impl.startswith("ok:") and (": " + want + ";" in unhx(impl[3:]) or ":" + want + "}" in unhx(impl[3:]))
     return Verdict(True, None if ok else f"declaration value should print as {want}")
 
